@@ -70,9 +70,13 @@ def parseItems : List String → Option (List (Nat × Nat × Obj))
     | _, _, _, _ => none
   | _ => none
 
-def parseOp (s : String) : Option Op :=
+def parseOp1 (s : String) : Option Op :=
   match s.splitOn "~" with
   | ["A"] => some .alloc
+  | ["F", n, g] =>
+    match n.toNat?, g.toNat? with
+    | some n, some g => some (.openStreamFail n g)
+    | _, _ => none
   | ["P", n, g, o] =>
     match n.toNat?, g.toNat?, Obj.ofWire o with
     | some n, some g, some o => some (.put n g (.plain o))
@@ -107,6 +111,11 @@ def parseNumObjs : List String → Option (List (Nat × Obj))
     | some n, some o, some r => some ((n, o) :: r)
     | _, _, _ => none
   | _ => none
+
+/-- `!op`: the Writer refused `op` without side effects and the program went on -/
+def parseOp (s : String) : Option Op :=
+  if s.startsWith "!" then (parseOp1 (String.ofList (s.toList.drop 1))).map .rejected else parseOp1 s
+
 
 /-! ### the independent file checker (C03) -/
 
